@@ -78,8 +78,14 @@ class _RunOne:
             agg.nontrivial.add(d)
         if res.get("nontrivial"):
             agg.nontrivial.add(res["case_digest"])
-            if len(agg.samples) < 1 and idx % 97 < 3:
-                agg.samples.append({"index": idx, "seed": seed, "case": case,
+        if (res.get("nontrivial") or res.get("nontrivial_digests")) and res["status"] == "ok":
+            cls = res.get("sample_class", "default")
+            if cls not in agg.sample_classes and len(agg.samples) < 3:
+                agg.sample_classes.add(cls)
+                c = case
+                if len(common.canon(c)) > 6000:
+                    c = {"truncated": common.canon(c)[:6000]}
+                agg.samples.append({"index": idx, "seed": seed, "class": cls, "case": c,
                                     "observed": res.get("observed")})
         if res["status"] != "ok" and res.get("finding"):
             fid = res["finding"]
@@ -259,6 +265,25 @@ def run_check(prop, tier, base_seed, runs=None, workers=None, wall_cap=None,
             err("HARNESS-ERROR property=%s while minimising: %s" % (prop, e))
             exit_code = 2
             continue
+        statistical = getattr(mod, "VIOLATION_IS_NONDETERMINISM", False)
+        if small is None and statistical:
+            # the violation *is* a difference between two real executions of
+            # the same case (process-level nondeterminism): it need not show
+            # up again in every re-execution.  Report it with what was observed.
+            os.makedirs(REPLAY_DIR, exist_ok=True)
+            res = {"check_id": check_id, "message": f["message"], "digest": f["digest"]}
+            path = write_replay(mod, f, f["case"], res, size_before)
+            seen = 0
+            for _ in range(4):
+                cid, dig, st = verify_replay_fresh(path)
+                seen += 1 if cid == check_id else 0
+            violations += 1
+            out("VIOLATION property=%s replay=%s" % (prop, path))
+            out("  check=%s: %s" % (check_id, f["message"]))
+            out("  the violation is nondeterminism between interpreter processes; the "
+                "replay file re-runs the same children and reproduced it in %d of 4 "
+                "fresh attempts" % seen)
+            continue
         if small is None:
             err("HARNESS-ERROR property=%s check=%s index=%d: failure did not "
                 "reproduce in an isolated re-execution (nondeterministic "
@@ -283,6 +308,14 @@ def run_check(prop, tier, base_seed, runs=None, workers=None, wall_cap=None,
                     pass
         path = write_replay(mod, f, small, res, size_before)
         cid, dig, st = verify_replay_fresh(path)
+        if statistical and (cid != check_id or dig != res["digest"]):
+            seen = sum(1 for _ in range(4) if verify_replay_fresh(path)[0] == check_id)
+            violations += 1
+            out("VIOLATION property=%s replay=%s" % (prop, path))
+            out("  check=%s: %s" % (check_id, res.get("message") or f["message"]))
+            out("  the violation is nondeterminism between interpreter processes; the "
+                "replay reproduced it in %d of 4 further fresh attempts" % seen)
+            continue
         if cid != check_id or dig != res["digest"]:
             err("HARNESS-ERROR property=%s: replay of %s in a fresh "
                 "interpreter gave check_id=%s digest=%s status=%s, expected "
